@@ -11,7 +11,7 @@ PROP = {
     "trusted_base": [
         "Model/Parser.v is a hand-written model of url/src/parser.rs tied to the code by the correspondence only",
         "Spec/Whatwg.v is a transcription of the WHATWG URL Standard (edition of the vendored WPT snapshot); validated on every run against all 819 vectors of urltestdata.json with no exception list (the 35 vectors rust-url lists as expected failures pass on it); Spec/WhatwgFuel.v proves its fuel is never exhausted",
-        "host parsing (IDNA, IPv4, IPv6, opaque) on both sides is answered by the real crate's Host::parse / parse_opaque in this check; host conformance is C09's",
+        "host parsing/serialisation inside the URL model is Model/Host.v (property C09); only IDNA ToASCII (idna::domain_to_ascii_cow with AsciiDenyList::URL, as host.rs calls it) is answered by the real idna crate through an oracle query",
         "the violation callback is not modelled (it only observes); independence from it is checked by running every correspondence case twice",
     ],
     "assumptions": [
@@ -28,6 +28,6 @@ PROP = {
 TEXT = {
     "level": "Coq theorems (4, closed under the global context): the percent-encode sets, default ports and special schemes regenerated from the Rust source on every run equal the ones Spec/Whatwg.v defines independently from the Standard, for every byte / every scheme string; the parser's input preprocessing is the Standard's; the parse result is independent of a UTF-8 encoding override for all inputs and bases. The conformance statement itself (model of parser.rs = specification model outside Known_C01) is stated and NOT proved: it is decided by (i) the correspondence model <-> implementation on the full record, (ii) validation of the specification model against all 819 WPT vectors without exceptions, (iii) a fixed-seed differential run implementation <-> specification model in which every divergence must lie in the computable class Known_C01.",
     "design_ref": "DESIGN.md section 8 C01, section 9, section 13",
-    "note": "Partial by design (DESIGN.md section 11): the equivalence theorem is not proved; (i)-(iii) are tests. Known_C01 is deliberately broad (file scheme; drive-letter-shaped segments; backslash in non-special input; ':@'), trading sensitivity inside those classes for no false alarm on the unchanged tree. Trusted: Coq kernel + vm_compute, translator, extraction + two OCaml drivers, the generators, host functions answered by the real crate.",
+    "note": "Partial by design (DESIGN.md section 11): the equivalence theorem is not proved; (i)-(iii) are tests. Known_C01 is deliberately broad (file scheme; drive-letter-shaped segments; backslash in non-special input; ':@'), trading sensitivity inside those classes for no false alarm on the unchanged tree. Trusted: Coq kernel + vm_compute, translator, extraction + two OCaml drivers, the generators, IDNA ToASCII answered by the real idna crate (the host model is Model/Host.v).",
     "technique": "Coq table/preprocessing/override theorems + model/implementation correspondence + WPT-validated specification model differential (fixed seed)",
 }
